@@ -117,6 +117,16 @@ pub fn decoders() -> Vec<Dec> {
             let o: Origin = (&u).into();
             let _ = v.assert_domain(&o, Some(s));
         }) },
+        // the generic list provider over a second (hand-encoded) table, right after a lookup through
+        // the shipped table on the same thread, and the shipped one right after it
+        Dec { name: "ListProvider<second table>", kind: Kind::Text, run: |b| text(b, |s| {
+            use crate::oracles::tinytable::TINY;
+            let _ = public_suffix::DEFAULT_PROVIDER.effective_tld_plus_one("www.example.com");
+            let _ = TINY.effective_tld_plus_one(s);
+            let _ = TINY.public_suffix(s);
+            let _ = TINY.is_effective_tld(s);
+            let _ = public_suffix::DEFAULT_PROVIDER.effective_tld_plus_one(s);
+        }) },
         Dec { name: "assert_domain(host=rp-pair)", kind: Kind::Text, run: |b| text(b, |s| {
             // "<host>=<rp id>": two independent strings (the text alphabet contains '=')
             let (host, rp) = s.split_once('=').unwrap_or((s, ""));
@@ -236,6 +246,7 @@ pub fn seeds_for(name: &str) -> Vec<Vec<u8>> {
         "Bytes(json)" => vec![b"[1,2,255]".to_vec(), b"\"AQID-_8\"".to_vec(), b"\"AQID+/8=\"".to_vec()],
         "Bytes::try_from(&str)" | "encoding::try_from_base64url" => vec![b"AQID-_8".to_vec(), b"AQID+/8=".to_vec()],
         "valid_fingerprint" => vec![super::common::FP.as_bytes().to_vec()],
+        "ListProvider<second table>" => vec![b"www.example.com".to_vec(), b"a.intra.corp".to_vec(), b"x.y.lab".to_vec(), b"gate.lab".to_vec(), b"example.test".to_vec()],
         "assert_domain(host=rp-pair)" => vec!["www.bücher.example=bücher.example".as_bytes().to_vec(), b"a.b.xn--55qx5d.cn=xn--55qx5d.cn".to_vec(), "é.com=x.com".as_bytes().to_vec()],
         "UnverifiedAssetLink::new+assert_domain" | "RpIdVerifier(web)" | "public_suffix" => vec![b"www.example.co.uk".to_vec(), b"a.b.xn--55qx5d.cn".to_vec(), b"x.www.ck".to_vec()],
         _ => vec![],
@@ -839,7 +850,7 @@ pub fn run(ctx: &Ctx) -> Result<Run, String> {
     let ndec = sp.decs.len();
     let mut run = Run::from_stats(
         "exploration",
-        "for each of 27 public decoders (CTAP2 CBOR messages, authenticator data, WebAuthn JSON, base64, U2F raw messages, COSE-key converter, fingerprints, asset links, RP-ID verification, public-suffix lookups): (1) all byte strings up to length 2 (3 thorough) / all strings over an 8-symbol alphabet up to length 5 (7 thorough); (2) every single deviation of valid seed encodings of every message type: truncation at every position, every byte value at every position (CBOR/binary; a 17-symbol menu for JSON/text), and splices at every position of CBOR heads of every major type with declared lengths 2^8..2^64-1 / indefinite, 300- and 100000-deep nesting, JSON structure/number/escape fragments, long and dotted labels (thorough: all pairs of byte-level deviations on short seeds); run in isolated worker processes with a counting allocator (single request > 4 MiB + 32 x input length, or > 256 MiB in total = out of proportion; > 1 GiB refused), 8 MiB stack, per-case watchdog; (2b) COSE keys built as structs (0..2 entries per coordinate from a menu of lengths and types, three label orders, repeated labels included) given to the converter directly; (4) scaling families: 14 well-formed message shapes whose collection (PRF per-credential map, allow/exclude list, parameter list, unknown members, COSE parameters, JSON lists and maps, base64 text) grows to 256, 1024, 4096, 16384 (thorough: 65536) elements, with ids/keys that differ only at the front, only at the end or only in the middle, decoded in isolated workers: 4x the elements may not cost more than 9x the CPU time (judged once the larger run exceeds 10 ms, confirmed by a second measurement) nor an allocation out of proportion; (3) CTAPHID: BFS over packet sequences on the real ChannelHandler (alphabet: 2 channels x 8 init heads + 4 continuation sequence numbers x 13 packet sizes), deduplicated on the hook snapshot. Non-trivial = distinct non-empty input",
+        "for each of 28 public decoders (CTAP2 CBOR messages, authenticator data, WebAuthn JSON, base64, U2F raw messages, COSE-key converter, fingerprints, asset links, RP-ID verification, public-suffix lookups): (1) all byte strings up to length 2 (3 thorough) / all strings over an 8-symbol alphabet up to length 5 (7 thorough); (2) every single deviation of valid seed encodings of every message type: truncation at every position, every byte value at every position (CBOR/binary; a 17-symbol menu for JSON/text), and splices at every position of CBOR heads of every major type with declared lengths 2^8..2^64-1 / indefinite, 300- and 100000-deep nesting, JSON structure/number/escape fragments, long and dotted labels (thorough: all pairs of byte-level deviations on short seeds); run in isolated worker processes with a counting allocator (single request > 4 MiB + 32 x input length, or > 256 MiB in total = out of proportion; > 1 GiB refused), 8 MiB stack, per-case watchdog; (2b) COSE keys built as structs (0..2 entries per coordinate from a menu of lengths and types, three label orders, repeated labels included) given to the converter directly; (4) scaling families: 14 well-formed message shapes whose collection (PRF per-credential map, allow/exclude list, parameter list, unknown members, COSE parameters, JSON lists and maps, base64 text) grows to 256, 1024, 4096, 16384 (thorough: 65536) elements, with ids/keys that differ only at the front, only at the end or only in the middle, decoded in isolated workers: 4x the elements may not cost more than 9x the CPU time (judged once the larger run exceeds 10 ms, confirmed by a second measurement) nor an allocation out of proportion; (3) CTAPHID: BFS over packet sequences on the real ChannelHandler (alphabet: 2 channels x 8 init heads + 4 continuation sequence numbers x 13 packet sizes), deduplicated on the hook snapshot. Non-trivial = distinct non-empty input",
         true,
         stats,
     );
